@@ -68,7 +68,7 @@ func (t c11ServerTime) Validate(from, until int64) error {
 	if int64(t) < from {
 		return operationparser.ErrOperationEarly
 	}
-	if int64(t) >= until {
+	if int64(t) > until { // the window is inclusive at both ends
 		return operationparser.ErrOperationExpired
 	}
 	return nil
@@ -80,7 +80,7 @@ func jsonEq(a, b interface{}) bool {
 
 func c11(r *hx.Run) {
 	fx.Quiet()
-	r.Rule = "full product of builder inputs: 5 key types (EdDSA, ES256, ES384, ES512, ES256K) x 2 hash algorithms x {opaque document, patch list} x anchor origin {nil, string, object} x window {none, from only, from+until} x nonce {absent, 16 bytes} x kid {absent, present}, plus 16 configurations whose signing keys have a coordinate with a leading zero byte; the four client builders with the library's signers and JWK conversion produce create/update/recover/deactivate requests; each must be accepted by the real parser (configured with a server-time window validator, T inside every supplied window, and an anchor-origin validator that must see exactly the supplied origin of create and recover), parse back to the supplied suffix, commitments, patches, reveal value, key and window, and - anchored inside the window on a DID whose commitment matches - resolve on the real processor to the state computed by ref/doc + the supplied commitments. Non-trivial: every configuration (all reach resolution)."
+	r.Rule = "full product of builder inputs: 5 key types (EdDSA, ES256, ES384, ES512, ES256K) x 2 hash algorithms x {opaque document, patch list} x anchor origin {nil, string, object} x window {none, from only, from+until, from+until ending at the anchoring time, from only with the implied window ending at the anchoring time} x nonce {absent, 16 bytes} x kid {absent, present}, plus 16 configurations whose signing keys have a coordinate with a leading zero byte; the four client builders with the library's signers and JWK conversion produce create/update/recover/deactivate requests; each must be accepted by the real parser (configured with a server-time window validator, T inside every supplied window, and an anchor-origin validator that must see exactly the supplied origin of create and recover), parse back to the supplied suffix, commitments, patches, reveal value, key and window, and - anchored inside the window on a DID whose commitment matches - resolve on the real processor to the state computed by ref/doc + the supplied commitments. Non-trivial: every configuration (all reach resolution)."
 	const T = 1000000
 	type cfg struct {
 		kt     string
@@ -97,7 +97,7 @@ func c11(r *hx.Run) {
 		for _, code := range []uint{fx.SHA256, fx.SHA512} {
 			for _, opaque := range []bool{false, true} {
 				for origin := 0; origin < 3; origin++ {
-					for window := 0; window < 3; window++ {
+					for window := 0; window < 5; window++ {
 						for _, nonce := range []bool{false, true} {
 							for _, kid := range []bool{false, true} {
 								cfgs = append(cfgs, cfg{kt, code, opaque, origin, window, nonce, kid, ""})
@@ -148,6 +148,10 @@ func c11(r *hx.Run) {
 			from = T - 250000
 		case 2:
 			from, until = T-250000, T+10
+		case 3: // anchored at the very last second of an explicit window
+			from, until = T-250000, T
+		case 4: // anchored at the very last second of the window implied by anchorFrom alone
+			from = T - 300007
 		}
 		keys := map[string]*fx.Key{}
 		jwks := map[string]*jws.JWK{}
@@ -303,6 +307,9 @@ func c11(r *hx.Run) {
 			{"create+deactivate", []fx.Placed{cp, {Op: mk("D", operation.TypeDeactivate, dreq), Time: T, Num: 1, Published: true}}, doc.Doc{}, "", "", true},
 		}
 		for _, sc := range scs {
+			if c.window >= 3 && sc.name == "create+update+recover" {
+				continue // its recover is anchored one second later, outside a window that ends at T
+			}
 			rm, err := ResolveImpl(cl, suffix, sc.placed)
 			r.Eval()
 			r.State()
